@@ -21,4 +21,22 @@ CHECKS = {
   "design_ref": "DESIGN.md section 3 C01",
   "note": _TB,
  },
+ "C02": {
+  "technique": "runtime contracts on u_to_ubi/ubi_to_u/ubi_to_cell/ubi_to_u_b/ub_to_u_b/ubi_to_rod (both modules) + purity monitor + generated (U, cell) and UB=Q.T workloads with the generating (Q,T) as oracle",
+  "text": "Post-conditions on every call: UBI.U.B_oracle = k.I, UBI.UBI' = G, ubi.U upper triangular with positive diagonal (uniqueness of the split), U orthonormal det +1 to 1e-9, U.B = UB; the workload hands one array from function to function (so in-place edits of the caller's UBI are seen) and compares with the generated U, cell, Q, T; cond(UB) up to 5e5 incl. a stratum built to span 4-5.6 decades. Held on K sampled inputs.",
+  "design_ref": "DESIGN.md section 3 C02",
+  "note": _TB,
+ },
+ "C03": {
+  "technique": "runtime contracts on the 6 rotation constructors and on u_to_euler/u_to_rod (both modules) vs harness-written Rx,Ry,Rz / Cayley-form Rodrigues oracle, workloads stratified around gimbal lock and 180 deg",
+  "text": "Every constructed matrix must equal the documented composition to 1e-12 and be orthonormal/det +1; every u_to_euler/u_to_rod return must be in range/finite and rebuild its input within 1e-6; an exception on a proper rotation is a violation. 13 strata for the inverses (exact lock, PHI or pi-PHI log-uniform 1e-12..1e-3 from Euler triples and from axis-angle products, noisy z-rotations, axis-aligned, near 180 deg down to 1.1e-5 deg). Reported the u_to_euler defect of the pinned tree (repaired by a fix: commit). Held on K sampled inputs.",
+  "design_ref": "DESIGN.md section 3 C03, section 4 row 1",
+  "note": _TB,
+ },
+ "C04": {
+  "technique": "class invariant (icontract.invariant) on every live xfab.sg.sg instance with exact integer group arithmetic + exhaustive request sweep (237 tables, all names x spelling variants, shuffled and reversed order)",
+  "text": "Exhaustive over the finite space the property quantifies over: each of the 237 tables is checked exactly (identity, closure, inverses, no duplicates mod 1, nsymop, nuniq prefix, centring count, rotations+-inversion equal to the Laue group of the stated class in the stated setting, R'GR=G on a basis of conforming metrics), each request by number/name is checked against what the request implies (setting, centring, crystal system and Laue class by ITA number) and against the by-number table, in both request orders within one process.",
+  "design_ref": "DESIGN.md section 3 C04",
+  "note": "integer arithmetic is exact; translations snapped to k/24 within 2e-6; ITA number ranges for crystal system / Laue class are harness knowledge; standard settings only",
+ },
 }
